@@ -227,6 +227,7 @@ impl Giant {
             }
             _ => verdict = V::Skip,
         }
+        let mut was_rejected = false;
         match (verdict, &outcome) {
             (V::Skip, _) => {
                 self.stats.skipped += 1;
@@ -246,14 +247,17 @@ impl Giant {
                 let detail = format!("an invalid call was accepted; size was ({},{}), is now {:?}, data().len()={}", c, r, self.arr.size(), self.arr.data().len());
                 return Err(self.viol("verdict", detail, step));
             }
-            (V::Reject, Err(Caught::Panic(_))) => self.stats.rejected += 1,
+            (V::Reject, Err(Caught::Panic(_))) => {
+                self.stats.rejected += 1;
+                was_rejected = true;
+            }
             (_, Err(Caught::Fault(_))) => unreachable!("no faults are armed in giant runs"),
         }
         // the observers themselves may panic (e.g. overflowing size arithmetic): that is a finding
         let (audit, _, _): (_, [u32; N_KINDS], bool) = guarded(None, || self.audit());
         match audit {
             Ok(Ok(())) => {}
-            Ok(Err((k, d))) => return Err(self.viol(k, d, step)),
+            Ok(Err((k, d))) => return Err(self.viol(if was_rejected && k == "cells" { "cells_after_reject" } else { k }, d, step)),
             Err(Caught::Panic(m)) => return Err(self.viol("audit_panic", format!("reading the array panicked: {} (size ({},{}))", m, self.c, self.r), step)),
             Err(Caught::Fault(_)) => unreachable!(),
         }
